@@ -191,3 +191,115 @@ def drive(gen, answer, cap):
     except Exception as e:  # noqa: recorded
         out["exc"] = type(e).__name__
     return events, out
+
+
+class Decoder24:
+    def __init__(self):
+        t = core.spec_tables()
+        self.dev = {row[2]: row[1] for row in t["dev"]}
+        self.inst = {row[2]: row[1] for row in t["inst"]}
+        self.special = [(row[2], row[3], row[4], row[1]) for row in t["devspecial"]]
+
+    def decode(self, f):
+        """-> (name, dest, opcode byte)"""
+        ab, ib, ob = f >> 16, (f >> 8) & 0xFF, f & 0xFF
+        if not (ab & 1):
+            return "event", None, ob
+        a7 = ab >> 1
+        dest = None
+        if a7 < 64:
+            dest = ("dshort", a7)
+        elif a7 < 96:
+            dest = ("dgroup", a7 - 64)
+        elif a7 == 127:
+            dest = ("dbcast", 0)
+        elif a7 == 126:
+            dest = ("dunaddr", 0)
+        if dest is not None:
+            return (self.dev.get(ob, "?") if ib == 0xFE else self.inst.get(ob, "?")), dest, ob
+        for sab, sib, fl, name in self.special:
+            if sab == ab and ("2" in fl or sib == ib):
+                if "2" in fl or "1" in fl or ob == 0:
+                    return name, None, ob
+        return "?", None, ob
+
+
+class MemUnitSim:
+    """One memory bank of a bus unit with short address 5 (mirror of spec/MemUnit.tla)."""
+
+    def __init__(self, kind, bank, bankno, mem, types, latchable, unlock=0x55, nobble=False, echoflip=False,
+                 fault=(0, "none"), dtr0=0, dtr1=0, wes=False):
+        self.kind, self.bank, self.bankno = kind, bank, bankno
+        self.mem = list(mem)
+        self.types = types            # loc -> letter ("R" when the map has no value there)
+        self.latchable = latchable
+        self.snap = None
+        self.unlock, self.nobble, self.echoflip, self.fault = unlock, nobble, echoflip, tuple(fault)
+        self.dtr0, self.dtr1, self.wes = dtr0, dtr1, wes
+        self.nans = 0
+        self.d16, self.d24 = Decoder16(), Decoder24()
+
+    def view(self, l):
+        if self.latchable and self.snap is not None and self.mem[2] == 0xAA:
+            return self.snap[l]
+        return self.mem[l]
+
+    def _faulted(self, ans):
+        if self.fault[1] != "none" and self.nans + 1 == self.fault[0]:
+            return ("none", 0) if self.fault[1] == "silent" else ("err", 255)
+        return ans
+
+    def step(self, ln, f):
+        if (ln == 16) != (self.kind == "gear"):
+            return ("none", 0)
+        name, dest, v = self.d16.decode(f) if ln == 16 else self.d24.decode(f)
+        addressed = dest in (("gshort", 5), ("gbcast", 0), ("dshort", 5), ("dbcast", 0))
+        if name == "DTR0":
+            self.dtr0 = v
+        elif name == "DTR1":
+            self.dtr1 = v
+        elif name == "DTR2":
+            pass
+        elif name == "QueryContentDTR0":
+            return ("val", self.dtr0) if addressed else ("none", 0)
+        elif name == "QueryContentDTR1":
+            return ("val", self.dtr1) if addressed else ("none", 0)
+        elif name == "EnableWriteMemory":
+            self.wes = addressed
+        elif name == "ReadMemoryLocation":
+            self.wes = False
+            if not addressed or self.dtr1 != self.bankno:
+                return ("none", 0)
+            l = self.dtr0
+            ok = l < 255 and self.view(0) >= 0 and l <= self.view(0) and self.view(l) >= 0
+            ans = ("val", self.view(l)) if ok else ("none", 0)
+            ans = self._faulted(ans)
+            self.nans += 1
+            self.dtr0 = min(l + 1, 255)
+            return ans
+        elif name in ("WriteMemoryLocation", "WriteMemoryLocationNoReply"):
+            if not self.wes or self.dtr1 != self.bankno:
+                return ("none", 0)
+            l = self.dtr0
+            t = self.types.get(l, "R")
+            ok = l < 255 and self.view(0) >= 0 and l <= self.view(0) and self.mem[l] >= 0 and t in "WNL" and \
+                (t != "L" or self.mem[2] == self.unlock)
+            if ok:
+                self.mem[l] = v
+                if l == 2 and v == 0xAA and self.latchable:
+                    self.snap = list(self.mem)
+            if not self.nobble:
+                self.dtr0 = min(l + 1, 255)
+            if name == "WriteMemoryLocation":
+                ans = ("val", (v + 1) % 256 if self.echoflip else v) if ok else ("none", 0)
+                ans = self._faulted(ans)
+                self.nans += 1
+                return ans
+            return ("none", 0)
+        else:
+            self.wes = False
+        return ("none", 0)
+
+    def tick(self, changes):
+        for l, v in changes:
+            self.mem[l] = v
